@@ -351,6 +351,8 @@ def covering_programs(cat, rng, groups):
                 pid[0] += 1
         for _ in range(4):
             items.append(gen.as_item(pg.misc(), pid[0], rng)); pid[0] += 1
+        for _ in range(10):
+            items.append(gen.as_item(pg.const_literal(), pid[0], rng)); pid[0] += 1
         if g == 0:
             for _ in range(6):
                 items.append(gen.as_item(pg.system(), pid[0], rng)); pid[0] += 1
@@ -389,6 +391,8 @@ def seeded_program(cat, rng, idx, max_probes=24):
                 p = pg.system()
             elif w == 2:
                 p = pg.misc()
+            elif w == 3:
+                p = pg.const_literal()
             elif w == 1 and cat.models and "Pressure" in cat.units:
                 p = pg.model(); p["gcc_only"] = True
             else:
@@ -746,6 +750,9 @@ def main(tier, seed, only=None):
                 PROP, vc[0], vc[1], vc[2], len(fs), f.get("note", ""), sd["cfg"] if isinstance(sd["cfg"], str) else cfg_name(sd["cfg"]), sd.get("order", sd.get("link"))))
             continue
         nviol += 1
+        if len(reported) >= 4:
+            log("violation class %s: %d failing (schedule, probe) pairs (not minimised: four classes already reported)" % (list(vc), len(fs)))
+            continue
         log("violation class %s: %d failing (schedule, probe) pairs; minimising one ..." % (list(vc), len(fs)))
         if f["program"] is None:
             names_ = sorted({x["note"].split(" [")[0] for x in fs})
